@@ -14,11 +14,20 @@ import (
 
 const shutdownTime = 5 * time.Second
 
+// maxOwnTopicMessageSize is the largest encoded announce message sent to a
+// topic that the Sender made itself, with gossiptopic.MakeTopic. Pubsub drops
+// a message that, in its envelope of sender ID, sequence number, topic name,
+// signature and key, is larger than the maximum message size, and it does so
+// without telling the publisher.
+const maxOwnTopicMessageSize = pubsub.DefaultMaxMessageSize - 4096
+
 // Sender sends announce messages over pubsub.
 type Sender struct {
 	cancelPubSub context.CancelFunc
 	topic        *pubsub.Topic
 	extraData    []byte
+	// maxSize, if not zero, is the largest encoded message that is sent.
+	maxSize int
 }
 
 // New creates a new Sender that sends announce messages over pubsub.
@@ -29,6 +38,7 @@ func New(p2pHost host.Host, topicName string, options ...Option) (*Sender, error
 	}
 
 	var cancelPubsub context.CancelFunc
+	var maxSize int
 	topic := opts.topic
 	if topic == nil {
 		if topicName != "" {
@@ -36,6 +46,9 @@ func New(p2pHost host.Host, topicName string, options ...Option) (*Sender, error
 			if err != nil {
 				return nil, err
 			}
+			// A topic that is given may have another message size limit; that
+			// of a topic made here is known.
+			maxSize = maxOwnTopicMessageSize
 		}
 	}
 
@@ -43,6 +56,7 @@ func New(p2pHost host.Host, topicName string, options ...Option) (*Sender, error
 		cancelPubSub: cancelPubsub,
 		topic:        topic,
 		extraData:    opts.extraData,
+		maxSize:      maxSize,
 	}, nil
 }
 
@@ -73,6 +87,9 @@ func (s *Sender) Send(ctx context.Context, msg message.Message) error {
 	buf := bytes.NewBuffer(nil)
 	if err := msg.MarshalCBOR(buf); err != nil {
 		return err
+	}
+	if s.maxSize != 0 && buf.Len() > s.maxSize {
+		return fmt.Errorf("announce message of %d bytes is too large for pubsub, limit is %d", buf.Len(), s.maxSize)
 	}
 	return s.topic.Publish(ctx, buf.Bytes())
 }
